@@ -162,6 +162,10 @@ def check(repo: Repo, rep, tier):
     from .C19 import fresh_state
 
     fresh_state(repo, rep)
+    from .C13 import persist_unique
+
+    # persisting an external is a write: only the one file an approved change refers to
+    persist_unique(repo, rep)
     stale_bindings(repo, rep, {"config", "_current"}, "e.g. a copied state/config object keeps the flags of import time, so approval decisions are taken on stale data")
 
 
@@ -796,6 +800,16 @@ def xfail(repo: Repo, rep):
         region = reach(cfg, starts, skip_labels=("exc",))
         other = reach(cfg, [b for b, l in c.succ if l == "F"], skip_labels=("exc",))
         ys = [n for n in region if n.is_yield and n not in other]
+        # completeness: the marker alone decides - no yield that is also reached by unmarked tests (the shared, active state) may be
+        # reachable once is_xfail() answered True (e.g. `is_xfail(request) and not <option>`)
+        for y in [n for n in region if n.is_yield and n in other]:
+            rep.violation(
+                "R-XFAIL",
+                f,
+                y.ast,
+                f"a test for which `{short(c.ast, 30)}` is true can still reach the `yield` of ordinary tests (a further condition weakens the xfail rule): its snapshots are recorded in the session's state and written when a category is approved",
+                construct="xfail-weakened",
+            )
         if not ys:
             rep.violation("R-XFAIL", f, c.ast, "the xfail branch does not run the test in a private state (no yield of its own)", construct="noyield")
         for y in ys:
